@@ -145,6 +145,41 @@ func (m *RWMutex) RUnlock() {
 	m.readers--
 }
 
+//go:norace
+func (m *RWMutex) TryLock() bool {
+	if vsched.Aborting() {
+		return true
+	}
+	if !vsched.InThread() {
+		return m.real.TryLock()
+	}
+	vsched.Yield("rwmutex.TryLock")
+	if m.writer || m.readers > 0 {
+		return false
+	}
+	m.writer = true
+	vsched.RaceAcquire(unsafe.Pointer(m))
+	vsched.RaceAcquire(unsafe.Pointer(&m.rtok))
+	return true
+}
+
+//go:norace
+func (m *RWMutex) TryRLock() bool {
+	if vsched.Aborting() {
+		return true
+	}
+	if !vsched.InThread() {
+		return m.real.TryRLock()
+	}
+	vsched.Yield("rwmutex.TryRLock")
+	if m.writer {
+		return false
+	}
+	m.readers++
+	vsched.RaceAcquire(unsafe.Pointer(m))
+	return true
+}
+
 func (m *RWMutex) RLocker() sync.Locker { return rlocker{m} }
 
 type rlocker struct{ m *RWMutex }
@@ -243,10 +278,71 @@ func (wg *WaitGroup) Go(f func()) {
 	})
 }
 
-// Cond is not modelled; a use fails loudly at run time.
-type Cond struct{ L sync.Locker }
+// Cond: Wait releases L and parks until a Signal (first waiter, as sync's notify list) or Broadcast names this waiter,
+// then takes L again. Outside executions the real primitive is used.
+type Cond struct {
+	L       sync.Locker
+	real    *sync.Cond
+	waiters []*condW
+	tok     byte
+}
 
-func NewCond(l sync.Locker) *Cond { panic("vsync: sync.Cond is not modelled") }
-func (c *Cond) Wait()             { panic("vsync: sync.Cond is not modelled") }
-func (c *Cond) Signal()           { panic("vsync: sync.Cond is not modelled") }
-func (c *Cond) Broadcast()        { panic("vsync: sync.Cond is not modelled") }
+type condW struct{ signalled bool }
+
+//go:norace
+func (w *condW) Ready() bool { return w.signalled }
+
+func NewCond(l sync.Locker) *Cond { return &Cond{L: l, real: sync.NewCond(l)} }
+
+//go:norace
+func (c *Cond) Wait() {
+	if vsched.Aborting() {
+		return
+	}
+	if !vsched.InThread() {
+		c.real.Wait()
+		return
+	}
+	w := &condW{}
+	c.waiters = append(c.waiters, w)
+	c.L.Unlock()
+	vsched.Block(w, -1, "cond.Wait")
+	if vsched.InThread() {
+		vsched.RaceAcquire(unsafe.Pointer(&c.tok))
+	}
+	c.L.Lock()
+}
+
+//go:norace
+func (c *Cond) Signal() {
+	if vsched.Aborting() {
+		return
+	}
+	if !vsched.InThread() {
+		c.real.Signal()
+		return
+	}
+	vsched.Yield("cond.Signal")
+	vsched.RaceRelease(unsafe.Pointer(&c.tok))
+	if len(c.waiters) > 0 {
+		c.waiters[0].signalled = true
+		c.waiters = c.waiters[1:]
+	}
+}
+
+//go:norace
+func (c *Cond) Broadcast() {
+	if vsched.Aborting() {
+		return
+	}
+	if !vsched.InThread() {
+		c.real.Broadcast()
+		return
+	}
+	vsched.Yield("cond.Broadcast")
+	vsched.RaceRelease(unsafe.Pointer(&c.tok))
+	for _, w := range c.waiters {
+		w.signalled = true
+	}
+	c.waiters = nil
+}
